@@ -5790,3 +5790,416 @@ func rulePositionSource(c *Ctx, r *Rep) {
 		r.Undecided("positionsource:census", token.NoPos, "no Error method of a parse-error type of the command uses a position variable declared without a value")
 	}
 }
+
+// ---------------------------------------------------------------------------------------------------------------------
+// Rules from the sixth batch of seeded changes.
+
+func init() {
+	reg(&Rule{ID: "R-C19-iterflag", Props: []string{"C19"}, Floor: 1,
+		Doc: "a name registered with WithFunction and with WithIterFunction is refused whatever the arities: the merged entry carries one iterator flag for the name, and compileFunc appends opiter from that flag for every arity — the refusal is not weakened by a further condition (disjoint arity masks, say)",
+		Run: ruleIterFlag})
+	reg(&Rule{ID: "R-C18-resolvedefault", Props: []string{"C18"}, Floor: 1,
+		Doc: "resolvePath returns its path argument unchanged only under filepath.IsAbs: every other path that is not one of the two prefixes (`~/`, `$ORIGIN/`) is joined with the directory of the importing file, whether or not it starts with `./`",
+		Run: ruleResolveDefault})
+	reg(&Rule{ID: "R-C17-errortoken", Props: []string{"C17"}, Floor: 1,
+		Doc: "the token the lexer's Error method stores in the ParseError is the token as scanned (or the one-character spelling of a character token), never a part of it: the caret is computed as Offset - len(Token), so a token cut short moves it",
+		Run: ruleErrorToken})
+	addDecided("C19", " One name cannot be both an iterator and a plain function, whatever the arities (R-C19-iterflag).")
+	addDecided("C18", " resolvePath leaves only absolute paths unchanged (R-C18-resolvedefault); a cache of loaded data is keyed by everything the loader is given (R-C14-cachekey).")
+	addDecided("C17", " The ParseError's token is the scanned token, uncut (R-C17-errortoken); under --stream the re-scan of a failing value is tried before the token-error adjustment (R-C17-tokenoffset).")
+}
+
+func ruleIterFlag(c *Ctx, r *Rep) {
+	info := c.Gojq.TypesInfo
+	fd := c.Decl(c.Gojq, "withFunction")
+	if fd == nil {
+		r.Undecided("iterflag:anchor", token.NoPos, "withFunction not found")
+		return
+	}
+	// the struct of a registered function has one bool for the iterator kind?
+	perName := false
+	if tn, ok := c.Gojq.Types.Scope().Lookup("function").(*types.TypeName); ok {
+		if st, ok := tn.Type().Underlying().(*types.Struct); ok {
+			for i := 0; i < st.NumFields(); i++ {
+				if b, ok := st.Field(i).Type().Underlying().(*types.Basic); ok && b.Kind() == types.Bool {
+					perName = true
+				}
+			}
+		}
+	}
+	if !perName {
+		r.Undecided("iterflag:function", fd.Pos(), "the entry of a registered function no longer carries a single bool for its kind; this rule does not know the new representation")
+		return
+	}
+	found := false
+	ast.Inspect(fd.Body, func(m ast.Node) bool {
+		ifs, ok := m.(*ast.IfStmt)
+		if !ok || found {
+			return true
+		}
+		panics := false
+		for _, st := range ifs.Body.List {
+			if es, ok := st.(*ast.ExprStmt); ok {
+				if call, ok := es.X.(*ast.CallExpr); ok {
+					if id, ok := call.Fun.(*ast.Ident); ok && id.Name == "panic" {
+						panics = true
+					}
+				}
+			}
+		}
+		if !panics {
+			return true
+		}
+		// the condition mentions the kind flag
+		mentionsIter := false
+		ast.Inspect(ifs.Cond, func(q ast.Node) bool {
+			if sel, ok := q.(*ast.SelectorExpr); ok {
+				if f, ok := info.Uses[sel.Sel].(*types.Var); ok && f.IsField() {
+					if b, ok := f.Type().Underlying().(*types.Basic); ok && b.Kind() == types.Bool {
+						mentionsIter = true
+					}
+				}
+			}
+			return true
+		})
+		if !mentionsIter {
+			return true
+		}
+		found = true
+		_, isConj := unparen(ifs.Cond).(*ast.BinaryExpr)
+		weakened := false
+		if isConj {
+			if b := unparen(ifs.Cond).(*ast.BinaryExpr); b.Op == token.LAND {
+				weakened = true
+			}
+		}
+		r.Check(!weakened, "iterflag:guard", ifs.Pos(), "withFunction refuses a second registration of a name whenever its kind differs (`%s`), with no further condition: %v — refused only for overlapping arities, WithFunction(f/0) plus WithIterFunction(f/1) leaves one flag for both, and f/0's array result is silently iterated", c.Src(ifs.Cond), !weakened)
+		return true
+	})
+	if !found {
+		r.Undecided("iterflag:guard", fd.Pos(), "no refusal (a panic under a condition on the kind flag) found in withFunction")
+	}
+}
+
+func ruleResolveDefault(c *Ctx, r *Rep) {
+	info := c.Gojq.TypesInfo
+	fd := c.Decl(c.Gojq, "resolvePath")
+	if fd == nil || fd.Type.Params == nil || len(fd.Type.Params.List) == 0 {
+		r.Undecided("resolvedefault:anchor", token.NoPos, "resolvePath not found")
+		return
+	}
+	pathObj := info.Defs[fd.Type.Params.List[0].Names[0]]
+	n := 0
+	walkStack(fd.Body, func(m ast.Node, stack []ast.Node) bool {
+		rs, ok := m.(*ast.ReturnStmt)
+		if !ok || len(rs.Results) != 1 {
+			return true
+		}
+		id, ok := unparen(rs.Results[0]).(*ast.Ident)
+		if !ok || info.ObjectOf(id) != pathObj {
+			return true
+		}
+		n++
+		// the enclosing case (or if) tests filepath.IsAbs(path)
+		abs := false
+		for _, anc := range stack {
+			var conds []ast.Expr
+			switch a := anc.(type) {
+			case *ast.CaseClause:
+				conds = a.List
+			case *ast.IfStmt:
+				conds = []ast.Expr{a.Cond}
+			}
+			for _, e := range conds {
+				ast.Inspect(e, func(q ast.Node) bool {
+					if call, ok := q.(*ast.CallExpr); ok && calleeName(info, call) == "filepath.IsAbs" {
+						abs = true
+					}
+					return true
+				})
+			}
+		}
+		r.Check(abs, "resolvedefault:return path", rs.Pos(), "resolvePath returns its argument unchanged under filepath.IsAbs only: %v — a relative `search` that does not start with `./` (`../shared`, `data`) would otherwise be resolved against the working directory of the process instead of the importing file's directory", abs)
+		return true
+	})
+	if n == 0 {
+		r.Undecided("resolvedefault:census", fd.Pos(), "resolvePath never returns its argument unchanged (the absolute case does)")
+	}
+}
+
+func ruleErrorToken(c *Ctx, r *Rep) {
+	info := c.Gojq.TypesInfo
+	fd := c.Decl(c.Gojq, "lexer.Error")
+	if fd == nil {
+		r.Undecided("errortoken:anchor", token.NoPos, "lexer.Error not found")
+		return
+	}
+	// the variable that becomes ParseError.Token
+	var tokObj types.Object
+	ast.Inspect(fd.Body, func(m ast.Node) bool {
+		cl, ok := m.(*ast.CompositeLit)
+		if !ok {
+			return true
+		}
+		if nt := namedOf(info.TypeOf(cl)); nt == nil || nt.Obj().Name() != "ParseError" {
+			return true
+		}
+		var tok ast.Expr
+		for i, el := range cl.Elts {
+			if kv, ok := el.(*ast.KeyValueExpr); ok {
+				if k, ok := kv.Key.(*ast.Ident); ok && k.Name == "Token" {
+					tok = kv.Value
+				}
+			} else if i == 1 {
+				tok = el
+			}
+		}
+		if id, ok := unparen(tok).(*ast.Ident); ok {
+			tokObj = info.ObjectOf(id)
+		}
+		return true
+	})
+	if tokObj == nil {
+		r.Undecided("errortoken:literal", fd.Pos(), "the ParseError literal of lexer.Error does not take its token from a variable")
+		return
+	}
+	var bad []string
+	n := 0
+	ast.Inspect(fd.Body, func(m ast.Node) bool {
+		as, ok := m.(*ast.AssignStmt)
+		if !ok || len(as.Lhs) != len(as.Rhs) {
+			return true
+		}
+		for i, l := range as.Lhs {
+			id, ok := l.(*ast.Ident)
+			if !ok || info.ObjectOf(id) != tokObj {
+				continue
+			}
+			n++
+			rhs := unparen(as.Rhs[i])
+			switch x := rhs.(type) {
+			case *ast.SelectorExpr:
+				if x.Sel.Name == "token" {
+					continue // l.token
+				}
+			case *ast.CallExpr:
+				// string(rune(l.tokenType)): a conversion, not a cut
+				if tv, ok := info.Types[x.Fun]; ok && tv.IsType() {
+					continue
+				}
+			}
+			bad = append(bad, c.Src(as))
+		}
+		return true
+	})
+	r.Check(len(bad) == 0 && n > 0, "errortoken:lexer.Error", fd.Pos(), "lexer.Error stores the scanned token (or the spelling of a character token) in the ParseError: %v %v — Offset points behind the whole token, and the caret is Offset - len(Token): a token cut to 40 bytes moves the caret len(token) - 40 columns to the right", len(bad) == 0 && n > 0, bad)
+}
+
+// ---------------------------------------------------------------------------------------------------------------------
+// R-C18-fieldcache: a map kept in a struct field as a cache is keyed by everything its values depend on.
+
+func init() {
+	reg(&Rule{ID: "R-C18-fieldcache", Props: []string{"C18", "C06"}, Floor: 0,
+		Doc: "where a function of package gojq looks a key up in a map-typed struct field and stores into the same field (a cache), every parameter field the stored value depends on is determined by the key: a cache of loaded data keyed by the import path alone returns the first file for every later import of that name, whatever its `search` metadata resolves to",
+		Run: ruleFieldCache})
+}
+
+func ruleFieldCache(c *Ctx, r *Rep) {
+	info := c.Gojq.TypesInfo
+	n := 0
+	for _, fd := range c.Decls(c.Gojq) {
+		var recv types.Object
+		if fd.Recv != nil && len(fd.Recv.List) == 1 && len(fd.Recv.List[0].Names) == 1 {
+			recv = info.Defs[fd.Recv.List[0].Names[0]]
+		}
+		params := map[types.Object]bool{}
+		if fd.Type.Params != nil {
+			for _, f := range fd.Type.Params.List {
+				for _, nm := range f.Names {
+					if o := info.Defs[nm]; o != nil {
+						params[o] = true
+					}
+				}
+			}
+		}
+		isFieldMap := func(e ast.Expr) (string, bool) {
+			sel, ok := unparen(e).(*ast.SelectorExpr)
+			if !ok {
+				return "", false
+			}
+			f, ok := info.Uses[sel.Sel].(*types.Var)
+			if !ok || !f.IsField() {
+				return "", false
+			}
+			if _, ok := f.Type().Underlying().(*types.Map); !ok {
+				return "", false
+			}
+			return types.ExprString(sel), true
+		}
+		// stores and lookups per field
+		type site struct {
+			key, val ast.Expr
+			pos      token.Pos
+		}
+		stores := map[string][]site{}
+		lookups := map[string]bool{}
+		ast.Inspect(fd.Body, func(m ast.Node) bool {
+			as, ok := m.(*ast.AssignStmt)
+			if !ok {
+				return true
+			}
+			for i, l := range as.Lhs {
+				if ix, ok := unparen(l).(*ast.IndexExpr); ok {
+					if f, ok := isFieldMap(ix.X); ok && i < len(as.Rhs) {
+						stores[f] = append(stores[f], site{ix.Index, as.Rhs[i], as.Pos()})
+					}
+				}
+			}
+			if len(as.Lhs) == 2 && len(as.Rhs) == 1 {
+				if ix, ok := unparen(as.Rhs[0]).(*ast.IndexExpr); ok {
+					if f, ok := isFieldMap(ix.X); ok {
+						lookups[f] = true
+					}
+				}
+			}
+			return true
+		})
+		if len(stores) == 0 {
+			continue
+		}
+		// a registry, not a cache: the branch taken when the key is already present stores too (a merge of registrations)
+		registry := map[string]bool{}
+		ast.Inspect(fd.Body, func(m ast.Node) bool {
+			ifs, ok := m.(*ast.IfStmt)
+			if !ok || ifs.Init == nil {
+				return true
+			}
+			as, ok := ifs.Init.(*ast.AssignStmt)
+			if !ok || len(as.Lhs) != 2 || len(as.Rhs) != 1 {
+				return true
+			}
+			ix, ok := unparen(as.Rhs[0]).(*ast.IndexExpr)
+			if !ok {
+				return true
+			}
+			f, ok := isFieldMap(ix.X)
+			if !ok {
+				return true
+			}
+			okId, isId := as.Lhs[1].(*ast.Ident)
+			if cid, isCond := unparen(ifs.Cond).(*ast.Ident); !isId || !isCond || info.ObjectOf(cid) != info.ObjectOf(okId) {
+				return true
+			}
+			for _, s := range stores[f] {
+				if s.pos >= ifs.Body.Pos() && s.pos < ifs.Body.End() {
+					registry[f] = true
+				}
+			}
+			return true
+		})
+		assigns := map[types.Object][]ast.Expr{}
+		ast.Inspect(fd.Body, func(m ast.Node) bool {
+			as, ok := m.(*ast.AssignStmt)
+			if !ok {
+				return true
+			}
+			for i, l := range as.Lhs {
+				if id, ok := l.(*ast.Ident); ok {
+					if o := info.ObjectOf(id); o != nil {
+						assigns[o] = append(assigns[o], as.Rhs[min(i, len(as.Rhs)-1)])
+					}
+				}
+			}
+			return true
+		})
+		var deps func(e ast.Expr, out map[string]bool, seen map[types.Object]bool)
+		deps = func(e ast.Expr, out map[string]bool, seen map[types.Object]bool) {
+			var visit func(n ast.Node) bool
+			visit = func(n ast.Node) bool {
+				switch x := n.(type) {
+				case *ast.SelectorExpr:
+					// a chain rooted at a parameter: p.f.g
+					root := unparen(x.X)
+					chain := x.Sel.Name
+					for {
+						if s2, ok := root.(*ast.SelectorExpr); ok {
+							chain = s2.Sel.Name + "." + chain
+							root = unparen(s2.X)
+							continue
+						}
+						break
+					}
+					if id, ok := root.(*ast.Ident); ok {
+						o := info.ObjectOf(id)
+						if o == recv && recv != nil {
+							return false // configuration of the receiver: the same for every call
+						}
+						if params[o] {
+							if _, isFn := info.Uses[x.Sel].(*types.Func); isFn {
+								// p.f.Method(): depends on p.f
+								if i := strings.LastIndex(chain, "."); i >= 0 {
+									out[o.Name()+"."+chain[:i]] = true
+								} else {
+									out[o.Name()] = true
+								}
+							} else {
+								out[o.Name()+"."+chain] = true
+							}
+							return false
+						}
+					}
+					return true
+				case *ast.Ident:
+					o, ok := info.Uses[x].(*types.Var)
+					if !ok || o.IsField() {
+						return true
+					}
+					if o == recv {
+						return true
+					}
+					if params[o] {
+						out[o.Name()] = true
+						return true
+					}
+					if seen[o] {
+						return true
+					}
+					seen[o] = true
+					for _, rhs := range assigns[o] {
+						deps(rhs, out, seen)
+					}
+				}
+				return true
+			}
+			ast.Inspect(e, visit)
+		}
+		for f, ss := range stores {
+			if !lookups[f] || registry[f] {
+				continue // not read back in this function, or merged on a hit: not a cache lookup/fill pair
+			}
+			for _, s := range ss {
+				n++
+				kd, vd := map[string]bool{}, map[string]bool{}
+				deps(s.key, kd, map[types.Object]bool{})
+				deps(s.val, vd, map[types.Object]bool{})
+				var missing []string
+				for d := range vd {
+					covered := false
+					for k := range kd {
+						if d == k || strings.HasPrefix(d, k+".") {
+							covered = true
+						}
+					}
+					if !covered {
+						missing = append(missing, d)
+					}
+				}
+				sort.Strings(missing)
+				r.Check(len(missing) == 0, "fieldcache:"+declKey(fd)+":"+f, s.pos, "%s fills the cache %s under a key that determines everything the stored value depends on (key: %v): %v %v — the first caller's value is otherwise handed to every later caller whose key is equal and whose other arguments are not (a data file imported by name from two directories with their own `search`)", declKey(fd), f, keysOf(kd), len(missing) == 0, missing)
+			}
+		}
+	}
+	if n == 0 {
+		r.OK("fieldcache:none", token.NoPos, "no function of package gojq uses a map-typed struct field as a cache")
+	}
+}
